@@ -4,6 +4,7 @@ import PyElf.Gen.Tables
 import PyElf.Gen.Extra_C17
 import PyElf.Model.Env
 import PyElf.Spec.RegistryDecisions
+import PyElf.Spec.RegistryMarkers
 open Lean
 namespace PyElf.Driver.C17
 open PyElf PyElf.Spec
@@ -41,7 +42,10 @@ def handle (req : Json) : Except String Json := do
     -- the regenerated tables as the theorems see them (for the regeneration tie)
     let idx := Gen.tableIndex.map fun (key, id, e, t) =>
       Json.mkObj [("key", jN key), ("id", Json.str id), ("enum", Json.bool e),
-                  ("keys", Json.arr (t.map fun (k, v) => Json.arr #[jN k, jI v]).toArray)]
+                  ("keys", Json.arr (t.map fun (k, v) => Json.arr #[jN k, jI v]).toArray),
+                  ("markers", match Spec.findMarkers key Gen.markerIndex with
+                              | some ms => Json.arr (ms.map Json.bool).toArray
+                              | none => Json.null)]
     let strs := allTables.map fun (id, t) =>
       Json.mkObj [("id", Json.str id), ("items", Json.arr (t.map fun (n, v) => Json.arr #[Json.str n, jI v]).toArray)]
     return Json.mkObj [("index", Json.arr idx.toArray), ("tables", Json.arr strs.toArray),
@@ -53,8 +57,12 @@ def handle (req : Json) : Except String Json := do
     let c := Registry.tree.toNamed.all fun (n, key, _) => nameKey n == key
     let d := allTables.map (fun (_, t) => t.map fun (n, v) => (nameKey n, v))
                == Gen.tableIndex.map (fun x => x.2.2.2)
+    -- the regenerated marker flags are `isRangeMarker` of the names: the flagged tables the range-marker theorems
+    -- walk ARE `markTable` of the String tables
+    let e := allTables.map (fun (_, t) => some (Spec.markTable t))
+               == Gen.tableIndex.map (fun x => (Spec.findMarkers x.1 Gen.markerIndex).bind (Spec.attachMarkers x.2.2.2))
     return Json.mkObj [("aliases", Json.bool a), ("index_keys", Json.bool b), ("registry_keys", Json.bool c),
-                       ("key_tables", Json.bool d)]
+                       ("key_tables", Json.bool d), ("markers", Json.bool e)]
   | "decode" =>
     -- a code found in a file, decoded through table `table`: the model's answer (last name carrying the code)
     -- and what the property demands of whatever name is reported
